@@ -284,7 +284,7 @@ class C13(Prop):
                 'C13_class_partial', 'C13_create_class', 'C13_type_shared_partial', 'C13_type_shared_history',
                 'C13_type_shared_full_false', 'C13_unattached_stable', 'C13_create_unattached_reports',
                 'C13_create_reports', 'C13_create_inherits_and_pins', 'C13_rescope_keeps_existing',
-                'C13_rescope_inserts_missing', 'C13_rescope_array_stays_array', 'C13_tables_agree',
+                'C13_rescope_inserts_missing', 'C13_rescope_class', 'C13_rescope_array_to_scalar', 'C13_tables_agree',
                 'C13_create_name_partial', 'C13_create_name_full_false', 'C13_read_pure_partial',
                 'C13_read_pure_full_false', 'C13_no_recursion']
     design_ref = 'DESIGN.md 4.B C13'
@@ -303,7 +303,7 @@ class C13(Prop):
                   'its own type in every scope state; C13_create_reports / _unattached_reports / _inherits_and_pins (a symbol created '
                   'without type copies the declaration found up the chain into its own scope and no longer sees updates elsewhere). '
                   'Rescoping: C13_rescope_keeps_existing (an entry the target chain has wins over the own type, the only write is a copy '
-                  'into the target table), C13_rescope_inserts_missing (parentless symbols), C13_rescope_array_stays_array (witness). '
+                  'into the target table), C13_rescope_inserts_missing (parentless symbols), C13_rescope_class (a rescoped symbol without subscripts is classified by the recorded type alone, full strength since the fix: commit for Array.rescope), C13_rescope_array_to_scalar (example). '
                   'Witness-level only: reads rewriting sibling member entries (C13_read_pure_partial outside member fallback, '
                   'C13_read_pure_full_false), qualified name without parent (C13_create_name_partial for plain names, '
                   'C13_create_name_full_false). The model is tied to the code by an '
@@ -598,7 +598,9 @@ class C13(Prop):
                 if got != ref and consistent:
                     shape = None if t is None else t.__dict__.get('shape')
                     cls = None
-                    if got == 'Array' and not new.dimensions and not shape and not (
+                    explicit_empty = kind in ('create', 'clone') and not is_keep(op[5]) and not is_none(op[5]) \
+                        and opt_int(op[5]) == 0        # dimensions=() handed to Variable / clone by the caller
+                    if got == 'Array' and not new.dimensions and not shape and explicit_empty and not (
                             has_parent and new.scope is not None and (rec0 is None or not rec0.dtype)):
                         cls = 'empty-dimensions-array'
                     elif has_parent and new.scope is not None and (rec0 is None or not rec0.dtype):
@@ -690,7 +692,8 @@ class C13(Prop):
         return False
 
     def classes(self):
-        # repaired by a fix: commit (a reappearance is a plain VIOLATION): deferred-member-recursion
+        # repaired by fix: commits (a reappearance is a plain VIOLATION): deferred-member-recursion,
+        # array-rescope-keeps-array (the rescope route of empty-dimensions-array)
         return ['empty-dimensions-array', 'qualified-name-without-parent', 'member-lookup-rewrites-siblings',
                 'deferred-entry-on-member']
 
